@@ -1,8 +1,173 @@
 import MetadorModel.Py.DrvLib
-/-! Driver stub (to be filled in). -/
-open MetadorModel
+import MetadorModel.Model.Record
+/-!
+Driver for the record model (C02, C03). Names travel hex-encoded.
 
-def step (s : Unit) : List String → Unit × String
+Operations (one per line):
+* `open <p|m> <r|r+|a|w|w-|x> n <name>`  /  `open <p|m> <mode> l <file>*`
+* `write <k>`, `read`, `create`, `commit`, `discard`, `close <0|1>`, `merge <name>`, `delete <name>`
+* `find <name> <file>*` (find_files on a listing), `list <file>*` (list_records), `valid <name>`
+
+Answer of an API call:
+`<outcome> | h=<closed | name:idx:c/u,... rw=0/1 allow=0/1 mf=+ or -> | ls=<name:c/u/m,...> | must=<..> may=<..> | view=<ids>`
+with `ls` the sorted directory listing after the call (`c` committed container, `u`
+uncommitted container, `m` manifest sidecar), `must`/`may` the existing files the call has
+certainly / possibly rewritten, `view` the sorted ids of the visible writes.
+-/
+open MetadorModel MetadorModel.Record MetadorModel.FindFiles MetadorModel.Drv
+
+def unhexName (s : String) : Option Name := (unhexStr s).map String.toList
+def hexName (n : Name) : String := hexStr (String.ofList n)
+
+def unhexNames : List String → Option (List Name)
+  | [] => some []
+  | x :: r => do
+    let a ← unhexName x
+    let b ← unhexNames r
+    pure (a :: b)
+
+def parseMode : String → Option Mode
+  | "r" => some .r | "r+" => some .rp | "a" => some .a | "w" => some .w
+  | "w-" => some .wm | "x" => some .x | _ => none
+
+def showOut : Out → String
+  | .ok => "ok" | .valueError => "ValueError" | .fileNotFound => "FileNotFoundError"
+  | .fileExists => "FileExistsError" | .osError => "OSError" | .keyError => "KeyError"
+  | .indexError => "IndexError" | .assertionError => "AssertionError"
+  | .unboundLocal => "UnboundLocalError" | .busy => "busy"
+
+def nameLt (a b : Name) : Bool := decide (String.ofList a < String.ofList b)
+
+def insertSorted (lt : α → α → Bool) (x : α) : List α → List α
+  | [] => [x]
+  | y :: r => if lt x y then x :: y :: r else y :: insertSorted lt x r
+def sortBy (lt : α → α → Bool) (l : List α) : List α := l.foldr (insertSorted lt) []
+
+def uniq [BEq α] : List α → List α
+  | [] => []
+  | x :: r => if r.contains x then uniq r else x :: uniq r
+
+def showNames (l : List Name) : String :=
+  ",".intercalate ((sortBy nameLt (uniq l)).map hexName)
+
+def fileFlag : File → String
+  | .cont ub _ => if ub.hash.isSome then "c" else "u"
+  | .mf _ _ => "m"
+
+def showLs (d : Disk) : String :=
+  ",".intercalate ((sortBy (fun a b => nameLt a.1 b.1) d).map (fun (k, v) => hexName k ++ ":" ++ fileFlag v))
+
+def showHandle (s : State) : String :=
+  let h := s.h
+  if h.closed then "closed"
+  else
+    let fs := h.files.map (fun (f, ub) => hexName f ++ ":" ++ toString ub.idx ++ ":" ++
+      (if ub.hash.isSome then "c" else "u"))
+    ",".intercalate fs ++ " rw=" ++ (if hasWritable h then "1" else "0") ++
+      " allow=" ++ (if h.allow then "1" else "0") ++
+      " mf=" ++ (if h.manifest.isSome then "+" else "-")
+
+def showView (s : State) : String :=
+  if s.h.closed then "-" else
+  ",".intercalate ((sortBy (fun (a b : Nat) => decide (a < b)) (view s)).map toString)
+
+def showRes (old : State) (r : Res) : String :=
+  let rewritten := uniq (r.written ++ r.created.filter (fun f => r.removed.contains f))
+  let existing := rewritten.filter (fun f => (getF old.disk f).isSome && (getF r.st.disk f).isSome)
+  let sure (f : Name) : Bool :=
+    match getF r.st.disk f with
+    | some (.cont ub _) => ub.hash.isSome
+    | some (.mf _ _) => true
+    | none => false
+  showOut r.out ++ " | h=" ++ showHandle r.st ++ " | ls=" ++ showLs r.st.disk ++
+    " | must=" ++ showNames (existing.filter sure) ++ " may=" ++ showNames (existing.filter (fun f => !sure f)) ++
+    " | view=" ++ showView r.st
+
+/-- driver state: the model state and the file names of the handle at the latest `close` line
+(used by the probe operations `openperm` / `restore` of the C03 harness) -/
+structure DS where
+  s : State := {}
+  last : List Name := []
+
+def apply (s : DS) (op : Op) : DS × String :=
+  let r := step s.s op
+  ({ s with s := r.st }, showRes s.s r)
+
+/-- the permutation number `seed` of a list in the factorial number system
+(the harness computes the same permutation in Python) -/
+def permBy : Nat → List Name → Nat → List Name
+  | 0, _, _ => []
+  | fuel + 1, l, seed =>
+    if l.isEmpty then [] else
+    let i := seed % l.length
+    match l[i]? with
+    | some x => x :: permBy fuel (l.eraseIdx i) (seed / l.length)
+    | none => []
+
+def parseCls : String → Option Bool
+  | "p" => some false | "m" => some true | _ => none
+
+def step' (s : DS) : List String → DS × String
+  | ["openperm", c, m, seed] =>
+    match parseCls c, parseMode m, seed.toNat? with
+    | some c, some m, some seed => apply s (.openRec c (.list (permBy s.last.length s.last seed)) m)
+    | _, _, _ => (s, "bad-op")
+  | ["restore"] =>
+    -- undo a probe: drop the patch the probe's open created (if any), close without commit
+    if !s.s.h.closed && s.s.h.files.length > s.last.length then
+      let r1 := step s.s .discardPatch
+      let r2 := step r1.st (.close false)
+      ({ s with s := r2.st }, showRes s.s { r2 with removed := r1.removed ++ r2.removed, written := r1.written ++ r2.written })
+    else apply s (.close false)
+  | "open" :: c :: m :: "n" :: [n] =>
+    match parseMode m, unhexName n with
+    | some m, some n =>
+      if c == "p" then apply s (.openRec false (.name n) m)
+      else if c == "m" then apply s (.openRec true (.name n) m) else (s, "bad-op")
+    | _, _ => (s, "bad-op")
+  | "open" :: c :: m :: "l" :: fs =>
+    match parseMode m, unhexNames fs with
+    | some m, some fs =>
+      if c == "p" then apply s (.openRec false (.list fs) m)
+      else if c == "m" then apply s (.openRec true (.list fs) m) else (s, "bad-op")
+    | _, _ => (s, "bad-op")
+  | ["write", k] =>
+    match k.toNat? with
+    | some k => apply s (.write k)
+    | none => (s, "bad-op")
+  | ["read"] => apply s .read
+  | ["create"] => apply s .createPatch
+  | ["commit"] => apply s .commitPatch
+  | ["discard"] => apply s .discardPatch
+  | ["close", "1"] => apply { s with last := if s.s.h.closed then s.last else fileNames s.s.h } (.close true)
+  | ["close", "0"] => apply { s with last := if s.s.h.closed then s.last else fileNames s.s.h } (.close false)
+  | ["merge", n] =>
+    match unhexName n with
+    | some n => apply s (.merge n)
+    | none => (s, "bad-op")
+  | ["delete", n] =>
+    match unhexName n with
+    | some n => apply s (.deleteFiles n)
+    | none => (s, "bad-op")
+  | "find" :: n :: fs =>
+    match unhexName n, unhexNames fs with
+    | some n, some fs =>
+      (s, match findFiles fs n with
+          | none => "ValueError"
+          | some l => "found " ++ showNames l)
+    | _, _ => (s, "bad-op")
+  | "list" :: fs =>
+    match unhexNames fs with
+    | some fs => (s, "records " ++ showNames (listRecords fs))
+    | none => (s, "bad-op")
+  | ["valid", n] =>
+    match unhexName n with
+    | some n => (s, if isValidName n then "T" else "F")
+    | none => (s, "bad-op")
+  | ["infer", f] =>
+    match unhexName f with
+    | some f => (s, "name " ++ hexName (inferName f))
+    | none => (s, "bad-op")
   | _ => (s, "bad-op")
 
-def main : IO Unit := Drv.run () step
+def main : IO Unit := Drv.run ({} : DS) step'
